@@ -34,6 +34,9 @@ func convURL(fam string, i int) string {
 		return fmt.Sprintf("https://%s/zqs/2014/07/zqname_Part%d.html", pagerHost, i)
 	case "pathslash":
 		return fmt.Sprintf("https://%s/zqs/view/%d/", pagerHost, i)
+	case "queryhtml":
+		// a query pager on a page whose path ends in .html
+		return fmt.Sprintf("https://%s/zqs/view.html?pg=%d", pagerHost, i)
 	case "queryid":
 		// a second, constant numeric parameter that sorts before the page parameter
 		return fmt.Sprintf("https://%s/zqs/view?id=77&pg=%d", pagerHost, i)
@@ -52,8 +55,10 @@ func convHref(fam string, i int, r int) string {
 		return strings.TrimPrefix(abs, "https://"+pagerHost)
 	default:
 		switch fam {
-		case "pathmid", "pathmidext", "pathslash":
+		case "pathmid", "pathmidext":
 			return abs
+		case "pathslash":
+			return fmt.Sprintf("../%d/", i) // relative to /zqs/view/<k>/
 		case "datedfile":
 			return fmt.Sprintf("zqname_Part%d.html", i)
 		case "queryid":
@@ -273,14 +278,17 @@ func runPager(c Case, e *env) []Event {
 			case "relnodigit":
 				href = pickS(r, "more.html", "../list", "?sort=asc")
 			case "abs":
-				href = fmt.Sprintf("https://%s/zqs/view/%d", pagerHost, num)
+				// sometimes with a fragment that scrolls to the article: the page it names is the same
+				href = fmt.Sprintf("https://%s/zqs/view/%d", pagerHost, num) + pickS(r, "", "", "#content", "#top")
 			case "absupper":
 				href = fmt.Sprintf("https://%s/zqs/view/%d", strings.ToUpper(pagerHost), num)
 			case "ftp":
 				href = fmt.Sprintf("ftp://%s/zqs/view/%d", pagerHost, num)
 			case "offsite":
 				href = pickS(r, fmt.Sprintf("https://other.example.org/zqs/view/%d", num), fmt.Sprintf("https://other.example.org/zqs/view?pg=%d", num),
-					fmt.Sprintf("http://partner.example.net/news?page=%d", num))
+					fmt.Sprintf("http://partner.example.net/news?page=%d", num),
+					// scheme-relative: starts with a slash but leads to another host
+					fmt.Sprintf("//other.example.org/zqs/view/%d", num), fmt.Sprintf("//mirror.example.net/zqs/view/%d", num))
 			case "lookprefix":
 				href = fmt.Sprintf("https://%s.evil.example.net/zqs/view/%d", pagerHost, num)
 			case "looksuffix":
